@@ -226,10 +226,35 @@ def _arith(op, pyop, a, b):
     return None
 
 
+def _offset(t):
+    """t as (base, constant offset): (x + 3) -> (x, 3); (x - 2) -> (x, -2)."""
+    if t.op == "+" and len(t.args) == 2 and t.args[1].op == "#int":
+        return t.args[0], t.args[1].args[0]
+    if t.op == "+" and len(t.args) == 2 and t.args[0].op == "#int":
+        return t.args[1], t.args[0].args[0]
+    if t.op == "-" and len(t.args) == 2 and t.args[1].op == "#int":
+        return t.args[0], -t.args[1].args[0]
+    return t, 0
+
+
+def _with_offset(base, off):
+    if off == 0:
+        return base
+    if off > 0:
+        return Term("+", (base, _mk_int(off)), "Int")
+    return Term("-", (base, _mk_int(-off)), "Int")
+
+
 def Add(a, b):
     r = _arith("+", lambda x, y: x + y, a, b)
     if r is not None:
         return r
+    if b.op == "#int":
+        base, off = _offset(a)
+        return _with_offset(base, off + b.args[0])
+    if a.op == "#int":
+        base, off = _offset(b)
+        return _with_offset(base, off + a.args[0])
     if a.op == "#int" and a.args[0] == 0:
         return b
     if b.op == "#int" and b.args[0] == 0:
@@ -241,6 +266,9 @@ def Sub(a, b):
     r = _arith("-", lambda x, y: x - y, a, b)
     if r is not None:
         return r
+    if b.op == "#int":
+        base, off = _offset(a)
+        return _with_offset(base, off - b.args[0])
     if b.op == "#int" and b.args[0] == 0:
         return a
     return Term("-", (a, b), "Int")
